@@ -13,8 +13,8 @@ from vsym import terms as T, sym as S, solve, harness
 PID = "C08"
 MODULE = "checks.c08"
 TS = [0.0, 1.0, 2.0]
-ELS = ["k", "c", "init", "g", "f", "S", "total"]
-OPS = ["eval", "set_conv", "set_const", "set_init_float", "set_init_const", "set_flow", "reset", "run_twice"]
+ELS = ["k", "c", "init", "g", "f", "S", "total", "asum"]
+OPS = ["eval", "set_conv", "set_const", "set_init_float", "set_init_const", "set_flow", "reset", "run_twice", "set_member"]
 
 
 class World(object):
@@ -24,7 +24,8 @@ class World(object):
         self.entry = entry           # how elements are evaluated before the edits: the memo must not care
         self.mode, self.env, self.n = mode, env or {}, 0
         self.defs = {"k": self.lit("k0"), "c": self.lit("c0"), "init": self.lit("i0"),
-                     "g": ("k*2+c",), "f": ("g",), "S_init": ("const",), "S_eq": ("f",)}
+                     "g": ("k*2+c",), "f": ("g",), "S_init": ("const",), "S_eq": ("f",),
+                     "r0": self.lit("r0"), "r1": self.lit("r1")}
         self.m = self.build(self.defs)
 
     def lit(self, name):
@@ -43,7 +44,16 @@ class World(object):
         S_.initial_value = init if d["S_init"][0] == "const" else d["S_init"][1]
         S_.equation = f
         tot.equation = S_ + g
+        # an arrayed constant and an aggregate over it: the aggregate's term must refer to the members, not copy them
+        rate, asum = m.constant("rate"), m.converter("asum")
+        rate.setup_vector(2, [d["r0"], d["r1"]])
+        asum.equation = rate.arr_sum()
         return m
+
+    def member_sum(self):
+        """the harness' own reading of asum under the current definitions (not the model's rendering of it)"""
+        vals = [S.v(x.symname) if isinstance(x, S.SymLit) else float(x) for x in (self.defs["r0"], self.defs["r1"])]
+        return vals[0] + vals[1]
 
     @staticmethod
     def _set_g(m, spec):
@@ -85,12 +95,15 @@ class World(object):
         elif op == "set_flow":
             self.defs["f"] = ("g+k*lit", self.lit(tag))
             self._set_f(m, self.defs["f"])
+        elif op == "set_member":
+            self.defs["r%d" % (arg % 2)] = self.lit(tag)
+            m.constant("rate")[arg % 2] = self.defs["r%d" % (arg % 2)]
         elif op == "reset":
             m.reset_cache()
         elif op == "run_twice":
             pass
 
-    KIND = {"k": "constant", "c": "constant", "init": "constant", "g": "converter", "f": "flow", "S": "stock", "total": "converter"}
+    KIND = {"asum": "converter", "k": "constant", "c": "constant", "init": "constant", "g": "converter", "f": "flow", "S": "stock", "total": "converter"}
 
     def value(self, m, e, t, entry):
         """the entry points through which a model is evaluated"""
@@ -115,7 +128,7 @@ def _default(n):
 
 def histories(tier):
     alphabet = [("eval", 5), ("eval", 6), ("set_conv", 0), ("set_const", 0), ("set_const", 1), ("set_const", 2),
-                ("set_init_float", 0), ("set_init_const", 0), ("set_flow", 0), ("reset", 0)]
+                ("set_init_float", 0), ("set_init_const", 0), ("set_flow", 0), ("reset", 0), ("set_member", 1)]
     out = [[a] for a in alphabet]
     out += [[a, b] for a in alphabet for b in alphabet]
     out += [[("eval", 6), a, b] for a in alphabet for b in alphabet if a[0] != "eval"]
@@ -138,6 +151,7 @@ def run_history(hist, mode, env=None, entry="evaluate"):
         got = w.observe()
         again = w.observe()
         want = w.observe(w.build(w.defs))
+        want["asum"] = {t: w.member_sum() for t in TS}
         out.append((i, got, again, want))
     return out
 
@@ -381,7 +395,7 @@ def replay(case):
         from checks import c08_sched
         return c08_sched.replay(case)
     hist = [tuple(x) for x in case["hist"]]
-    for env in (case.get("env", {}), {}, {"k0": 4.5, "c0": 0.25, "i0": 7.0, "e1": 3.0, "e2": 8.0, "e3": 0.5}):
+    for env in (case.get("env", {}), {}, {"k0": 4.5, "c0": 0.25, "i0": 7.0, "e1": 3.0, "e2": 8.0, "e3": 0.5, "r0": 2.5, "r1": 0.125}):
         try:
             res = run_history(hist, "float", env, case.get("entry", "evaluate"))
         except Exception as e:
@@ -485,7 +499,7 @@ def run(tier):
     # part C
     from checks import c08_sched
     sched = c08_sched.run_part(rep, tier)
-    rep.assume("part A: 7-element model (3 constants, converter, flow, stock, sum); every edit writes a fresh symbol; histories exhaustive to length 2 (+ eval-first length 3); the memo is filled before the edits through each of 4 entry points (evaluate_equation, element(t), memoize, Element.plot)",
+    rep.assume("part A: 7-element model (3 constants, converter, flow, stock, sum) plus an arrayed constant and an aggregate over it (expected value = sum of the harness' own member symbols); every edit writes a fresh symbol; histories exhaustive to length 2 (+ eval-first length 3); the memo is filled before the edits through each of 4 entry points (evaluate_equation, element(t), memoize, Element.plot)",
                "part B: random.* replaced by a fresh-symbol stub; worker threads joined one by one (deterministic thread stub); run specs %s" % (B_SPECS,),
                "part C: 2 threads, source-line granularity, schedule length bound; see evidence.sched",
                "part D: %d histories of session / edit through the modelling API / scenario cache reset / batch run on a registered scenario" % len(D_HISTORIES))
